@@ -346,6 +346,8 @@ def obligations(tier, seed):
         for first in range(3):
             if tier == "quick" and (style + first) % 3 == 2:
                 continue
+            if tier != "quick" and (style + first) % 2 == 1:
+                continue  # thorough: 5 of the 9 (style, first argument) combinations on the large table, all 9 are in the quick table
             N = len(CONFIGS[tier])
             chunks = 1 if tier == "quick" else 12   # the cost of realising the index grows with the range: keep ranges <= ~500
             wit = CONFIGS[tier].index((2, 1, 1, 1, 0, 7, 0))
